@@ -246,7 +246,19 @@ def build_vhdx(size=10 * MI, meta_offset=256 * KI, region_before=0,
                vsize=size if conformant else None,
                boundaries=(8, 32, 192 * KI, 192 * KI + 16,
                            192 * KI + 16 + 32 * n_region, 256 * KI, mt,
-                           mt + 32, meta_table_end, mt + 64 * KI, io, io + 8),
+                           mt + 32, meta_table_end, mt + 64 * KI, io, io + 8,
+                           # the size-carrying metadata entry and its fields
+                           # (GUID 16, offset 4, length 4, flags 4, pad 4)
+                           mt + 32 + 32 * meta_before,
+                           mt + 32 + 32 * meta_before + 16,
+                           mt + 32 + 32 * meta_before + 20,
+                           mt + 32 + 32 * meta_before + 24,
+                           mt + 32 + 32 * meta_before + 32,
+                           # the metadata region's entry in the region table
+                           192 * KI + 16 + 32 * region_before,
+                           192 * KI + 16 + 32 * region_before + 16,
+                           192 * KI + 16 + 32 * region_before + 24,
+                           192 * KI + 16 + 32 * region_before + 32),
                size_field_end=io + 8,
                # the inspector captures the full 64 KiB table window first
                struct_end=max(io + 8, mt + 64 * KI),
@@ -721,8 +733,10 @@ def overlay(length, background='zero', sigs=(), fill=1, fat=False,
         if off + len(sig) <= length:
             buf[off:off + len(sig)] = sig
     if fat and length > 0x15:
-        buf[0x10] = 2
-        buf[0x15] = 0xF8
+        # True: the FAT boot-sector look-alike (two FATs, media descriptor
+        # F8); 'numfats' / 'media': only one of the two bytes - not a FAT
+        buf[0x10] = 2 if fat in (True, 'numfats') else 0
+        buf[0x15] = 0xF8 if fat in (True, 'media') else 0
     return bytes(buf)
 
 
